@@ -415,6 +415,11 @@ func RandomFill(v reflect.Value, r *rand.Rand, depth int) {
 		for i := 0; i < n; i++ {
 			RandomFill(s.Index(i), r, depth+1)
 		}
+		if t.Elem().Kind() == reflect.String && r.Intn(6) == 0 {
+			// (a list of ONE string that holds list separators: the pool has grown, this shape must not thin out)
+			s = reflect.MakeSlice(t, 1, 1)
+			s.Index(0).SetString([]string{"a,b", "Doe, John", ",", "x;y", "a|b c", "1,2,3"}[r.Intn(6)])
+		}
 		v.Set(s)
 	case reflect.Map:
 		n := r.Intn(4) - 1
